@@ -64,8 +64,11 @@ class Scenario:
         mine = b['cls'] == 'own'
         added_on = 1000 + i
         rec = dict(cls=b['cls'], size=b['size'], hash=h, sd=None)
-        env.run(env.storage.add_blobs((h, b['size'], added_on, mine), finished=True))
-        self.touch(h, b['size'])
+        here = b.get('here', True)
+        # here = False: a blob of a partly downloaded stream -- announced in the descriptor (row 'pending' with its length), not on disk
+        env.run(env.storage.add_blobs((h, b['size'], added_on, mine), finished=here))
+        if here:
+            self.touch(h, b['size'])
         if b['cls'] != 'network':
             sd_hash = self.fake_hash(f'sd{i}', self.n)
             stream_hash = self.fake_hash(f'st{i}', self.n)
@@ -124,7 +127,10 @@ def gen_case(rng, k):
         blobs = [{'cls': rng.choice(CLS), 'size': sz, 'here': True} for _ in range(n)]
     else:
         blobs = [{'cls': rng.choice(CLS), 'size': rng.choice(SIZES), 'here': True} for _ in range(n)]
-    cbytes = sum(b['size'] for b in blobs if b['cls'] in ('content', 'nofile'))
+    for b in blobs:
+        if b['cls'] == 'content' and rng.random() < 0.2:
+            b['here'] = False            # partly downloaded: the database knows the blob's length, the disk does not hold it
+    cbytes = sum(b['size'] for b in blobs if b['cls'] in ('content', 'nofile') and b['here'])
     pbytes = sum(b['size'] for b in blobs if b['cls'] == 'own')
     nbytes = sum(b['size'] for b in blobs if b['cls'] == 'network')
     cused, nused = cbytes // MIB + pbytes // MIB, nbytes // MIB
@@ -157,6 +163,8 @@ def leg_c(ctx):
                         if cand:
                             sc.recomplete(ctx.rng.choice(cand))
                     b = {'cls': ctx.rng.choice(CLS), 'size': ctx.rng.choice(SIZES), 'here': True}
+                    if b['cls'] == 'content' and ctx.rng.random() < 0.15:
+                        b['here'] = False
                     sc.add(b)
                     evs.append({'event': 'Add', 'blob': b})
         finally:
